@@ -311,6 +311,53 @@ theorem C08_release_on_refusal {cfg : Cfg} {s : St} (p : Pkt) (id : Nat)
   · exact absurd k he
   · simpa [Mon.releasedIds] using k
 
+theorem hasError_false_of_errs : ∀ (l : List Ev), errs l = [] → Mon.hasError l = false := by
+  intro l
+  induction l with
+  | nil => intro _; rfl
+  | cons e t ih =>
+    intro h
+    cases e <;> simp_all [errs, Mon.hasError]
+
+theorem hasError_errs {l : List Ev} (h : Mon.hasError l = true) : errs l ≠ [] := by
+  intro he
+  rw [hasError_false_of_errs l he] at h
+  cases h
+
+theorem mem_releasedIds {l : List Ev} {id : Nat} : id ∈ Mon.releasedIds l ↔ Ev.released id ∈ l := by
+  induction l with
+  | nil => simp [Mon.releasedIds]
+  | cons e t ih => cases e <;> simp_all [Mon.releasedIds]
+
+/-- **the refused-send monitor is a theorem of the model** (driver monitor
+    `VIOL sig=C08 refused_send_keeps_id@<site>`).  A `send` of a packet that starts an exchange
+    (QoS>0 PUBLISH, SUBSCRIBE, UNSUBSCRIBE) with identifier `id`, `id` in use before the call,
+    whose events contain a `NotifyError`: `NotifyPacketIdReleased id` is among the events (it is
+    the only announcement) and `id` is free afterwards — for EVERY refusal path: protocol version,
+    role, status, Maximum Packet Size, Receive Maximum, Topic Alias (none keeps the identifier;
+    `PacketIdentifierInvalid` cannot occur since the identifier is in use).  The monitor's further
+    conditions (no `RequestSendPacket` among the events, the identifier not stored afterwards, owned
+    by no exchange and not stored before) are not needed. -/
+theorem C08_refused_send_releases {cfg : Cfg} {s : St} (h : 1 ≤ cfg.idMax) (w : PidWf cfg s) (p : Pkt) (id : Nat)
+    (hk : (p.kind = .publish ∧ p.qos > 0) ∨ p.kind = .subscribe ∨ p.kind = .unsubscribe)
+    (hp : p.pid = some id) (hu : isUsed s id = true)
+    (he : Mon.hasError (step cfg s (.send p)).ev = true) :
+    Ev.released id ∈ (step cfg s (.send p)).ev ∧ Mon.releasedIds (step cfg s (.send p)).ev = [id] ∧
+    isUsed (step cfg s (.send p)).s id = false := by
+  have hr := C08_release_on_refusal (cfg := cfg) (s := s) p id hk hp hu (hasError_errs he)
+  have hm : id ∈ Mon.releasedIds (step cfg s (.send p)).ev := by rw [hr]; simp
+  exact ⟨mem_releasedIds.1 hm, hr, (C08_release_exact h w (.send p)).2.2.1 id hm⟩
+
+/-- the monitor's condition, literally: the violation it reports never occurs in the model -/
+theorem C08_monitor_refused_send_sound {cfg : Cfg} {s : St} (h : 1 ≤ cfg.idMax) (w : PidWf cfg s) (p : Pkt) (id : Nat)
+    (hstarts : (p.kind = .publish ∧ p.qos > 0) ∨ p.kind = .subscribe ∨ p.kind = .unsubscribe)
+    (hp : p.pid = some id) (he : Mon.hasError (step cfg s (.send p)).ev = true)
+    (hnosend : ∀ q r, Ev.send q r ∉ (step cfg s (.send p)).ev)
+    (hnotstored : storeHas id (step cfg s (.send p)).s.store = false)
+    (husedBefore : isUsed s id = true) (hnotowned : ¬ owned s id) :
+    ¬ (isUsed (step cfg s (.send p)).s id = true) := by
+  rw [(C08_refused_send_releases h w p id hstarts hp husedBefore he).2.2]; simp
+
 /-- the error a send refused before its handler reports -/
 def C08.gateErr (s : St) (p : Pkt) : Nat := if s.ver ≠ p.ver then eVersionMismatch else eNotAllowed
 
@@ -657,6 +704,20 @@ example :
     let p : Pkt := { W.pub1 with pid := some 1 }
     s.ver = p.ver ∧ roleMaySend W.cfgC.role p = true ∧ (p.kind = .publish ∧ p.qos > 0) ∧
       p.pid = some 1 ∧ isUsed s 1 = true ∧ errs (step W.cfgC s (.send p)).ev = [eTooLarge] := by decide
+/-- `C08_refused_send_releases` on the same call: the monitor's hypotheses hold -/
+example :
+    let s := run W.cfgC W.s0 [.send W.connect5, .recv W.connackBytes (W.okp (W.connack5 false [(pMPS, 50)])),
+      .acquire]
+    let p : Pkt := { W.pub1 with pid := some 1 }
+    Mon.hasError (step W.cfgC s (.send p)).ev = true ∧ (∀ q r, Ev.send q r ∉ (step W.cfgC s (.send p)).ev) ∧
+      storeHas 1 (step W.cfgC s (.send p)).s.store = false ∧ isUsed s 1 = true ∧ ¬ owned s 1 ∧
+      (step W.cfgC s (.send p)).ev = [.error eTooLarge, .released 1] := by
+  refine ⟨by decide, ?_, by decide, by decide, by decide, by decide⟩
+  intro q r hm
+  have : (step W.cfgC (run W.cfgC W.s0 [.send W.connect5, .recv W.connackBytes (W.okp (W.connack5 false [(pMPS, 50)])),
+      .acquire]) (.send { W.pub1 with pid := some 1 })).ev = [.error eTooLarge, .released 1] := by decide
+  rw [this] at hm
+  simp at hm
 /-- `C08_release_on_close` -/
 example : 1 ∈ W.sB.suback ∧ isUsed W.sB 1 = true ∧ W.sB.needStore = true := by decide
 /-- `C08_PidInv_step_partial`: a legal `release` (id 3 held by the application) in a state with
